@@ -9,7 +9,7 @@ Driver for C04.
   drv_c04 oracle : case | obs ↦ `ok <tags>` iff obs = print (expected rules) for all three entry points, else `fail <what>`
   family `RF:<layout word>`: the oracle also re-renders the case with `C04.renderCase` (File.lean — the renderer of the
   whole-file theorems) from the layout word and the abstract rules and requires the text carried by the case to be exactly
-  that rendering (`render-agrees`, else `fail render-differs`); `rf_thm_hyp` = every rule on one line and comment-free, anything
+  that rendering (`render-agrees`, else `fail render-differs`); `rf_thm_hyp` = within the observable hypotheses of parseRules_render_full / _layout_comments (Theorems6: any layout, comments in any slot; `rf_thm_oneline` = the former tag:) every rule on one line and comment-free, anything
   between the rules (the layout hypotheses of `parseRules_render` / `parseRules_render_comments`)
 -/
 open Proto C04
@@ -391,6 +391,30 @@ def firstDiff (a b : String) : Nat := Id.run do
     i := i + 1
   return i
 
+def ltSlots : LT → List Str
+  | .leaf _ => []
+  | .paren wl wr t | .ex wl wr t | .fa wl wr t => wl :: wr :: ltSlots t
+  | .not w t => w :: ltSlots t
+  | .or l wl wr r | .and l wl wr r => wl :: wr :: (ltSlots l ++ ltSlots r)
+
+def srcSlots (r : RuleSrc) : List Str :=
+  [r.w0, r.w1, r.w2, r.w3, r.w4, r.w5, r.w6] ++ r.attrs.flatMap (fun a => [a.w1, a.w2]) ++ ltSlots r.cond
+    ++ r.stmts.flatMap (fun x => [x.1, x.2.2])
+
+/-- the hypotheses of `parseRules_render_full` / `parseRules_render_layout_comments` that can be observed on the text:
+`strip_comments` of the text IS `renderFile` of the same rules with every slot stripped (`RuleSrc.mapW stripSlot`), that file
+is comment-free, all its slots are white space, no leaf / statement text contains a line break or starts with `/`, and the
+first statement directly follows the slot after `then` -/
+def withinFull (text g0 : Str) (srcs : List (RuleSrc × Str)) : Bool :=
+  let srcsS := srcs.map fun x => (x.1.mapW stripSlot, stripSlot x.2)
+  let stripped := stripComments text none
+  stripped == renderFile (stripSlot g0) srcsS
+    && stripComments stripped none == stripped
+    && (stripSlot g0).all isWs
+    && srcsS.all (fun x => x.2.all isWs && (srcSlots x.1).all (fun w => w.all isWs)
+        && (x.1.cond.leaves ++ x.1.stmts.map (·.2.1)).all (fun t => !t.contains '\n' && t.head? != some '/')
+        && (match x.1.stmts with | (a, _, _) :: _ => a.isEmpty | [] => false))
+
 /-- the `RF` family: the case text must be `renderFile` of (layout word, abstract rules) -/
 def rfTags (c : Case) (rs : List ARule) : Except String (List String) :=
   if !c.stream.startsWith "RF:" then .ok [] else
@@ -405,7 +429,9 @@ def rfTags (c : Case) (rs : List ARule) : Except String (List String) :=
       let oneLine := (oddSegs c.segs).all fun s => !s.contains '\n'
       -- comments BETWEEN rules are covered by `parseRules_render_comments`: only the rule texts must be comment-free
       let rulesClean := (oddSegs c.segs).all fun s => stripComments s none == s
-      .ok (["render-agrees"] ++ (if rulesClean && oneLine then ["rf_thm_hyp"] else [])
+      let full := withinFull text (popO word).1 srcs
+      .ok (["render-agrees"] ++ (if (rulesClean && oneLine) || full then ["rf_thm_hyp"] else [])
+            ++ (if rulesClean && oneLine then ["rf_thm_oneline"] else [])
             ++ (if !noComments then ["rf_comments"] else []) ++ (if !oneLine then ["rf_multiline"] else []))
 
 def oracleLine (line : String) : String :=
